@@ -168,7 +168,7 @@ GptClean(L) == L.sig /\ ~L.fat /\ L.total >= 512 /\ ~GptUnsafe(L)
 (* offset relative to the table where the 8-byte size lives.                 *)
 HdrEnd == 256 * KiB
 TableCap == 64 * KiB
-X0 == [fmt |-> "vhdx", ident |-> TRUE, regi |-> TRUE, rmeta |-> TRUE, rpad |-> 0, rpost |-> 0,
+X0 == [fmt |-> "vhdx", ident |-> TRUE, regi |-> TRUE, rmeta |-> TRUE, rpad |-> 0, rpost |-> 0, rpost_len |-> "1048576",
        rcount |-> -1, meta_off |-> 320 * KiB, msig |-> TRUE, mcount |-> -1, mpad |-> 0, mpost |-> 0,
        mvds |-> TRUE, item_off |-> 64 * KiB, item_len |-> "8", size |-> "10G", total |-> -1,
        \* the length the region table announces for the metadata region: the inspector does not use it (it always
@@ -368,6 +368,9 @@ HostileLayouts ==
          il \in {"8", "65536", "65537", "2^32-1"}, mc \in {-1, 2047, 2048, 65535}, mp \in {0, 2046},
          mo \in {256 * KiB, 1024 * KiB}}
 \cup {[X0 EXCEPT !.rcount = rc, !.rpad = rp, !.total = Big] : rc \in {2047, 2048, 65535}, rp \in {0, 2046}}
+     \* the metadata entry is not the last one of the region table, and what follows it announces a huge region
+\cup {[X0 EXCEPT !.rpost = ro, !.rpost_len = "2^32-1", !.mvds = mv, !.total = Big, !.meta_off = mo] :
+         ro \in {1, 3}, mv \in BOOLEAN, mo \in {256 * KiB, 1024 * KiB}}
      \* a refused header (descriptor not at sector 1) announcing a huge descriptor: what was registered before the refusal
 \cup {[M0 EXCEPT !.desc_sec = ds, !.desc_num = dn, !.total = Big] : ds \in {"2", "2^55"}, dn \in {"2048", "2^55", "2^64-1"}}
      \* the size item inside the table window (before, at and behind the entries), with and without padding entries
